@@ -168,7 +168,40 @@ func ruleC19Codec(c *ctx.Ctx, r *core.Reporter) {
 	}
 	w := squash(nodeString(c, wt.Body))
 	rd := squash(nodeString(c, rh.Body))
-	r.Check(strings.Contains(w, "encoded:=[]byte{HintMagic}") && strings.Contains(w, "binary.BigEndian.AppendUint16(encoded,uint16(len(h.Payload)))") && strings.Contains(w, "append(encoded,h.Payload...)"), "header:writer", c.Pos(wt.Pos()), "WriteTo emits magic, big-endian uint16 payload length, payload")
+	{
+		// order of the three header parts in WriteTo, whatever the buffer handling looks like:
+		// first mention of the magic ≺ big-endian 16-bit length of the payload ≺ payload appended
+		recv := "h"
+		if wt.Recv != nil && len(wt.Recv.List) == 1 && len(wt.Recv.List[0].Names) == 1 {
+			recv = wt.Recv.List[0].Names[0].Name
+		}
+		pMagic, pLen, pPayload := token.NoPos, token.NoPos, token.NoPos
+		little := false
+		ast.Inspect(wt.Body, func(n ast.Node) bool {
+			switch x := n.(type) {
+			case *ast.Ident:
+				if x.Name == "HintMagic" && pMagic == token.NoPos {
+					pMagic = x.Pos()
+				}
+			case *ast.CallExpr:
+				if sel, ok := x.Fun.(*ast.SelectorExpr); ok {
+					switch exprStr(sel.X) {
+					case "binary.BigEndian":
+						if (sel.Sel.Name == "AppendUint16" || sel.Sel.Name == "PutUint16") && strings.Contains(squash(exprStr(x)), "uint16(len("+recv+".Payload))") && pLen == token.NoPos {
+							pLen = x.Pos()
+						}
+					case "binary.LittleEndian":
+						little = true
+					}
+				}
+				if exprStr(x.Fun) == "append" && x.Ellipsis.IsValid() && len(x.Args) == 2 && exprStr(x.Args[1]) == recv+".Payload" && pPayload == token.NoPos {
+					pPayload = x.Pos()
+				}
+			}
+			return true
+		})
+		r.Check(pMagic != token.NoPos && pLen > pMagic && pPayload > pLen && !little, "header:writer", c.Pos(wt.Pos()), "WriteTo emits magic, big-endian uint16 payload length, payload — in this order")
+	}
 	r.Check(strings.Contains(rd, "binary.BigEndian.Uint16(b[1:3])") && strings.Contains(rd, "copy(h.Payload,b[3:])") && strings.Contains(rd, "returnh,size+3"), "header:reader", c.Pos(rh.Pos()), "ReadHint reads the size from bytes 1..2 big-endian, the payload from byte 3 and reports size+3 consumed bytes")
 	r.Check(strings.Contains(w, "iflen(h.Payload)>0xFFFF{panic("), "header:size-fits", c.Pos(wt.Pos()), "a payload that does not fit the 16-bit size field is rejected instead of being truncated")
 	r.Check(strings.Contains(rd, "ifb[0]!=HintMagic{panic(") && strings.Contains(rd, "iflen(b)<size+3{panic("), "header:reader-checks", c.Pos(rh.Pos()), "ReadHint refuses input that does not start with the magic or is shorter than the announced payload")
